@@ -103,7 +103,7 @@ PAIR_NAMES = ["name", "decl_line", "decl_file", "external", "linkage_name", "typ
               "GNU_all_call_sites", "visibility", "GNU_pubnames", "GNU_all_tail_call_sites", "discr_value", "GNU_vector", "GNU_deleted"]
 
 
-def check_pairs(d, path, tag, out, bad, skip_ambiguous=None):
+def check_pairs(d, path, tag, out, bad, skip_ambiguous=None, forms=True):
     """Word-pair equivalences on the engine alone, for every DIE."""
     inp = "d:" + common.hx(path)
     for x in PAIR_NAMES:
@@ -131,6 +131,23 @@ def check_pairs(d, path, tag, out, bad, skip_ambiguous=None):
                             dict(file=tag, attr=x, die=repr(key), a=a[:2], b=b[:2]))); break
             if (len(s[-2]["v"]) > 0) != (len(s[-1]["v"]) > 0):
                 bad.append(("pair:?AT_x-disagrees-with-attribute-?AT_x", dict(file=tag, attr=x, die=repr(key)))); break
+    # ?FORM_x on an attribute holds exactly when its `form` is that constant (both views); for every form that occurs in the file
+    # and for the standard forms whose code is the low byte of a vendor form's code
+    for view in (("", "raw ") if forms else ()):
+        rf = d.run("(|Dw| [Dw %sentry attribute form])" % view, inp=inp, fuel=0, max=10, timeout=600)
+        if rf["st"] != "done" or not rf["res"]:
+            break
+        present = sorted(set(v["f"] for v in rf["res"][0][-1]["v"] if v["t"] == "c" and v["f"].startswith("DW_FORM_")))
+        for fn in sorted(set(present + ["DW_FORM_ref_sig8", "DW_FORM_implicit_const", "DW_FORM_strp", "DW_FORM_ref4", "DW_FORM_GNU_ref_alt", "DW_FORM_GNU_strp_alt"])):
+            short = fn[len("DW_FORM_"):]
+            e = "Dw %sentry attribute" % view
+            rq = d.run("(|Dw| [%s ?(form == %s)] [%s ?FORM_%s] [%s !FORM_%s] [%s] (|A B C D| (A == B) (A length C length add == D length)))" % (e, fn, e, short, e, short, e),
+                       inp=inp, fuel=0, max=10, timeout=600)
+            out["pairs"] += 1
+            if rq["st"] == "reject":
+                continue        # a form name the vocabulary does not have
+            if rq["st"] != "done" or len(rq["res"]) != 1:
+                bad.append(("pair:?FORM_x-disagrees-with-form==DW_FORM_x", dict(file=tag, form=fn, view=view.strip() or "cooked", st=rq["st"], msg=rq.get("msg")))); break
     r = d.run("entry (|D| D [D name] [D @AT_name])", inp=inp, fuel=0, max=1000000, timeout=600)
     if r["st"] == "done":
         for s in r["res"]:
@@ -174,7 +191,7 @@ def job(payload):
                         names = dwforest.cooked_attrs(x)[2]
                         if names:
                             amb[(x.offset, route)] = names
-                check_pairs(d, p, tag, out, bad, skip_ambiguous=amb)
+                check_pairs(d, p, tag, out, bad, skip_ambiguous=amb, forms=(i % 8 == 0))
                 out["files"] += 1
                 out["bad"] += bad[:4]
                 if not bad:
